@@ -159,6 +159,30 @@ func check(st *stats, u *sergen.Universe, s *sergen.Shape, v *sergen.Val, valida
 
 	// ---------------------------------------------------------------- binary form
 	b, err, pan := safeEncode(u.API, s, x, validation)
+	// custom Serializables of the static universe return windows into a shared arena: the encoder
+	// must not write into the storage behind a Serializable's Encode result
+	aliasSeen := map[string]bool{}
+	checkArena := func(form, after string) {
+		if !u.Static {
+			return
+		}
+		if off, ok := sergen.ArenaIntact(); !ok {
+			if !aliasSeen[form] {
+				aliasSeen[form] = true
+				add(form, "alias/encoder-wrote-into-serializable-backing-array", "after %s the shared arena behind the custom Serializable values is changed at offset %d (slot %d): the encoder appended to / wrote into the slice a Serializable returned", after, off, off/4)
+			}
+			sergen.ArenaReset()
+		}
+	}
+	checkArena("bin", "Encode")
+	if u.Static {
+		if countIt && err == nil && pan == nil {
+			if t, k := sergen.ArenaCount(s, v); t > 0 {
+				st.count("arena_backed_custom_values_encoded", t)
+				st.count("arena_backed_custom_map_keys_encoded", k)
+			}
+		}
+	}
 	switch {
 	case pan != nil:
 		if countIt {
@@ -245,9 +269,11 @@ func check(st *stats, u *sergen.Universe, s *sergen.Shape, v *sergen.Val, valida
 	}
 
 	// ---------------------------------------------------------------- JSON / map form
+	checkArena("bin", "Encode (re-encoding / determinism runs)")
 	if s.JSONable() && sergen.JSONSafe(s, v) {
 		viaMap := bseed&1 == 1
 		jb, err, pan := safeJSONEncode(u.API, s, x, validation, viaMap)
+		checkArena("json", "MapEncode/JSONEncode")
 		switch {
 		case pan != nil:
 			if countIt {
